@@ -9,6 +9,8 @@ G_CONCEPTS = [None, 'alpha', 'beta', '"a string"', 5, 0, 'b', 'a', 'x-01', 1.5, 
 G_CONSTS = ['-', '_', '_3', '"C:\\dir"', '"\\d+ it\\\'s"', 'sym', '"str"', '"a b(c)"', '+', 0, 0.0, -1, 1e22, 5, 1.5, None, 'imperative', '"0"', '-0.0', -0.0,
             '"\\"q\\""', '1,000', 12345678901234567890, 'mod', '"# x"', '"x : y"']
 
+_TWINS = {'0': [0.0, -0.0], '0.0': [0, -0.0], '-0.0': [0, 0.0], '-1': [-1.0], '5': [5.0], '1e+22': [10 ** 22], '1.5': ['1.50']}
+
 
 @st.composite
 def wf_graphs(draw, spec, max_vars=6, connected=True, colonless=True, inverted_roles=True, consts=None, concepts=None,
@@ -70,6 +72,14 @@ def wf_graphs(draw, spec, max_vars=6, connected=True, colonless=True, inverted_r
                 continue
             seen.add(key)
             triples.append([s, spell(r), c])
+            tw = _TWINS.get(repr(c))
+            if tw is not None and chance(draw, 1, 3):
+                # a second attribute, same source and role, whose constant is == in Python but written differently
+                c2 = pick(draw, tw)
+                key2 = (s, r, str(c2))
+                if key2 not in seen:
+                    seen.add(key2)
+                    triples.append([s, spell(r), c2])
     triples = fy(draw, triples)
     top = None
     if chance(draw, 1, 2):
